@@ -34,6 +34,8 @@ pub enum Op {
     /// are RELATED: r = c * H for r = 2(S2 - S1), H = U2 - U1, i.e. Zi * Zj = c (xj - xi) / (2 (yj - yi)), with c from a
     /// small structured set (+-1, +-2, +-1/2, and over Fq2 +-u, +-2u, +-u/2, 1 +- u): r^2 = H^2, r^2 = -H^2, I = -r^2 ...
     RelateZ(u8, u8, u8),
+    /// the same for a MIXED addition of projective register i and affine register j (Zj = 1): Zi = c (xj - xi) / (2 (yj - yi))
+    RelateZMixed(u8, u8, u8),
     BatchNorm(Vec<u8>),
     Eq(u8, u8),
     EqAff(u8, u8),
@@ -68,6 +70,7 @@ fn op_strategy() -> BoxedStrategy<Op> {
         3 => (p(), fq_uniformish()).prop_map(|(i, l)| Op::Rescale(i, l)),
         3 => (p(), p()).prop_map(|(i, j)| Op::AlignZ(i, j)),
         3 => (p(), p(), 0u8..14).prop_map(|(i, j, c)| Op::RelateZ(i, j, c)),
+        2 => (p(), a(), 0u8..14).prop_map(|(i, j, c)| Op::RelateZMixed(i, j, c)),
         2 => proptest::collection::vec(p(), 0..8).prop_map(Op::BatchNorm),
         3 => (p(), p()).prop_map(|(i, j)| Op::Eq(i, j)),
         1 => (a(), a()).prop_map(|(i, j)| Op::EqAff(i, j)),
@@ -366,6 +369,46 @@ where
                         };
                         let (_, _, zj) = cp[j].as_tuple();
                         let zj = G::f_m(zj);
+                        if !zj.is_zero() {
+                            // Zi = c dx / (2 dy Zj)
+                            let zi = c.mul(&dx).mul(&two.mul(&dy).mul(&zj).inv().ok_or("harness: inversion")?);
+                            if !zi.is_zero() {
+                                cp[i] = proj_c_scaled::<G>(&mp[i], &zi);
+                                cmp_proj::<G>("relate Z (harness)", step, &cp[i], &mp[i])?;
+                                info.class("representatives-with-related-addition-intermediates");
+                            }
+                        }
+                    }
+                }
+            }
+            Op::RelateZMixed(i, j, csel) => {
+                let (i, j) = (*i as usize % np, *j as usize % ma.len());
+                if let (Pt::Aff(xi, yi), Pt::Aff(xj, yj)) = (&mp[i], &ma[j]) {
+                    let (dx, dy) = (xj.sub(xi), yj.sub(yi));
+                    if !dx.is_zero() && !dy.is_zero() {
+                        let one = <G::F as Fld>::one();
+                        let two = <G::F as Fld>::from_u64(2);
+                        let half = two.inv().unwrap();
+                        let uu = <G::F as SqrtFld>::from_fq_pair(&refmodel::fld::Fq::zero(), &refmodel::fld::Fq::one());
+                        // over Fq the "u" choices degenerate to 0: fall back to small integers there
+                        let uu = if uu.is_zero() { <G::F as Fld>::from_u64(3) } else { uu };
+                        let c = match csel % 14 {
+                            0 => one.clone(),
+                            1 => one.neg(),
+                            2 => two.clone(),
+                            3 => two.neg(),
+                            4 => half.clone(),
+                            5 => half.neg(),
+                            6 => uu.clone(),
+                            7 => uu.neg(),
+                            8 => uu.mul(&two),
+                            9 => uu.mul(&two).neg(),
+                            10 => uu.mul(&half),
+                            11 => uu.mul(&half).neg(),
+                            12 => one.add(&uu),
+                            _ => one.sub(&uu),
+                        };
+                        let zj = one.clone();
                         if !zj.is_zero() {
                             // Zi = c dx / (2 dy Zj)
                             let zi = c.mul(&dx).mul(&two.mul(&dy).mul(&zj).inv().ok_or("harness: inversion")?);
